@@ -365,10 +365,19 @@ func (gb *gcpBalancer) getReadySubConnRef(boundKey string) (*subConnRef, bool) {
 				if sc, ok := gb.fallbackMap[boundKey]; ok {
 					return gb.scRefs[sc], true
 				}
-				// Try to create fallback mapping.
-				if scRef, err := gb.picker.(*gcpPicker).getLeastBusySubConnRef(); err == nil {
-					gb.fallbackMap[boundKey] = scRef.subConn
-					return scRef, true
+				// Try to create fallback mapping to the least busy ready subconn.
+				var fbRef *subConnRef
+				for fbSc, fbState := range gb.scStates {
+					if fbState != connectivity.Ready {
+						continue
+					}
+					if ref := gb.scRefs[fbSc]; ref != nil && (fbRef == nil || ref.getStreamsCnt() < fbRef.getStreamsCnt()) {
+						fbRef = ref
+					}
+				}
+				if fbRef != nil {
+					gb.fallbackMap[boundKey] = fbRef.subConn
+					return fbRef, true
 				}
 			}
 			return nil, true
